@@ -26,7 +26,7 @@ RULE = ("cases: configurators over 3-6 boolean items with 1-3 rules (plain and d
         "enumerated (<=16 columns), <=60 sampled points for pairs, all points for the argmax. non-trivial: >=2 feasible points with different "
         "keys; distinct by digest of (recipe, priorities)"
         ' Also: configurators read from harness-written JSON, defaulted rules nested under plain connectives, a rule replaced in place between two selects.')
-BUDGET = {"quick": (12, 260, 90), "thorough": (16, 2000, 1200)}
+BUDGET = {"quick": (12, 780, 90), "thorough": (16, 2000, 1200)}
 MANDATORY = ["judged:pair-order", "judged:argmax-set", "judged:default-prios", "count:with-defaults", "count:with-user-prios",
              "count:user-prio-on-helper", "count:negative-user-prio", "count:ties-in-user-prios", "count:built-from-json", "count:select-on-unpacked-polyhedron"]
 
